@@ -57,3 +57,6 @@ Proof. vm_compute. reflexivity. Qed.
 Lemma runtime_submodule_uses_locally_covered_l :
   fn_uses_covered_b events chain startup fn_uses fn_imports = true.
 Proof. vm_compute. reflexivity. Qed.
+
+Lemma import_time_stdio_guarded_l : forallb (fun d => snd d) stdio_derefs = true.
+Proof. vm_compute. reflexivity. Qed.
